@@ -303,6 +303,8 @@ func c08Subs(depth int) c08Result {
 	for _, n := range names {
 		ops = append(ops, "sub:"+n, "unsub:"+n)
 	}
+	// batches: several entries in one call (two or three of them matching, the same value twice as data and as hash)
+	ops = append(ops, "sub:direct+raw+short", "unsub:direct+raw", "unsub:direct+short", "unsub:raw+short", "unsub:direct+raw+short", "unsub:raw+hash(raw)")
 	probes := map[string][]byte{
 		"push raw":        append([]byte{33}, u.raw...),
 		"push hash(raw)":  append([]byte{20}, u.rawHash[:]...),
@@ -317,15 +319,20 @@ func c08Subs(depth int) c08Result {
 		sub := &c08Sub{counts: map[[20]byte]int{}}
 		for _, op := range seq {
 			p := strings.SplitN(op, ":", 2)
-			h := sub.hashOf(items[p[1]])
-			if p[0] == "sub" {
-				node.SubscribePushDatas(ctx, [][]byte{items[p[1]]})
-				sub.counts[h]++
-			} else {
-				node.UnsubscribePushDatas(ctx, [][]byte{items[p[1]]})
-				if sub.counts[h] > 0 {
+			var batch [][]byte
+			for _, n := range strings.Split(p[1], "+") {
+				batch = append(batch, items[n])
+				h := sub.hashOf(items[n])
+				if p[0] == "sub" {
+					sub.counts[h]++
+				} else if sub.counts[h] > 0 {
 					sub.counts[h]--
 				}
+			}
+			if p[0] == "sub" {
+				node.SubscribePushDatas(ctx, batch)
+			} else {
+				node.UnsubscribePushDatas(ctx, batch)
 			}
 		}
 		for pn, sc := range probes {
@@ -454,7 +461,7 @@ func runC08() int {
 	rep.Coverage["states"] = distinct
 	rep.Coverage["transitions"] = evals
 	rep.Coverage["traces_validated_against_impl"] = evals
-	rep.Coverage["rule"] = fmt.Sprintf("bounded-exhaustive: every sequence of <= %d script tokens from a 26-token alphabet (direct pushes of length 0/1/6/19/20/21/33/75, PUSHDATA1 0/20/33/76/255, PUSHDATA2 20/256, PUSHDATA4 20 and 2^32-1, OP_DUP, OP_RETURN, OP_CHECKSIG, 0xff, OP_1, OP_16, OP_1NEGATE; payloads: subscribed 20-byte value, raw data subscribed via hash, its hash, unsubscribed values) plus EVERY byte prefix of each script, placed in output 0/1 and input 0/1, on the real Node.IsRelevant vs an independent tokenizer; every subscribe/unsubscribe sequence <= %d over {raw, its hash, direct, short raw, its hash} vs a multiset; contract flag x {ContractFormation, InstrumentCreation, Transfer, ContractOffer, non-protocol, truncated}. distinct = distinct scripts / subscription sequences", depth, subDepth)
+	rep.Coverage["rule"] = fmt.Sprintf("bounded-exhaustive: every sequence of <= %d script tokens from a 26-token alphabet (direct pushes of length 0/1/6/19/20/21/33/75, PUSHDATA1 0/20/33/76/255, PUSHDATA2 20/256, PUSHDATA4 20 and 2^32-1, OP_DUP, OP_RETURN, OP_CHECKSIG, 0xff, OP_1, OP_16, OP_1NEGATE; payloads: subscribed 20-byte value, raw data subscribed via hash, its hash, unsubscribed values) plus EVERY byte prefix of each script, placed in output 0/1 and input 0/1, on the real Node.IsRelevant vs an independent tokenizer; every subscribe/unsubscribe sequence <= %d over {raw, its hash, direct, short raw, its hash} - single entries and batches of two or three entries per call - vs a multiset; contract flag x {ContractFormation, InstrumentCreation, Transfer, ContractOffer, non-protocol, truncated}. distinct = distinct scripts / subscription sequences", depth, subDepth)
 	rep.Assumptions = []string{"OP_1..OP_16/OP_1NEGATE are treated as one-byte pushes by both sides (no subscription matches them in the universe)"}
 	return rep.Finish()
 }
